@@ -359,6 +359,8 @@ func runC20Registry(r *Run, which string) {
 	gaugeN := 0
 	acts = append(acts, act{kind: 3, id: "g0"})
 	gaugeN++
+	// a gauge whose supplier has no value yet (ok == false on every poll): nothing may reach the backend under its name
+	noValueGauge := t.Chance(40, "gauge-without-value")
 	for i := 0; i < n; i++ {
 		k := t.Pick([]int{3, 3, 5, 1, 3}, "action")
 		a := act{kind: k}
@@ -479,6 +481,14 @@ func runC20Registry(r *Run, which string) {
 			case 3:
 				tk.Begin("RegisterGauge", a.id)
 				reg.RegisterGauge(a.id, mkSupplier(a.id, float64(len(a.id))))
+				if noValueGauge && a.id == "g0" {
+					reg.RegisterGauge("novalue", func() (float64, bool) {
+						pmu.Lock()
+						polls = append(polls, pollRec{t: s.Now(), step: s.Step, id: "novalue"})
+						pmu.Unlock()
+						return 0, false
+					})
+				}
 				tk.End(nil)
 			case 4:
 				tk.Begin("AddSample", a.id)
@@ -615,6 +625,10 @@ func runC20Registry(r *Run, which string) {
 				}
 			}
 		}
+		if m := gm.Get(effPrefix + "novalue"); noValueGauge && m != nil {
+			r.Fail("gauge-without-value-reported", which, "the supplier of gauge %q never had a value (ok == false on every poll) but the backend holds %T under %q", "novalue", m, effPrefix+"novalue")
+			return
+		}
 		if len(ps) > 0 {
 			if g, ok := gm.Get(effPrefix + "g0").(gometrics.GaugeFloat64); !ok || g.Value() != 2 {
 				r.Fail("gauge-not-forwarded", which, "gauge g0 was polled but the backend holds %v under %q", gm.Get(effPrefix+"g0"), effPrefix+"g0")
@@ -632,6 +646,10 @@ func runC20Registry(r *Run, which string) {
 				r.Fail("sample-not-forwarded", which+"/"+suffix[1:], "sample %v of %q (kind %s) not found on the wire as %q; wire:\n%s", sn.v, sn.id, suffix, want1, truncate(lines, 600))
 				return
 			}
+		}
+		if noValueGauge && strings.Contains(lines, effPrefix+"novalue:") {
+			r.Fail("gauge-without-value-reported", which, "the supplier of gauge %q never had a value (ok == false on every poll) but something was sent under that name:\n%s", "novalue", truncate(lines, 600))
+			return
 		}
 		if len(ps) > 0 && !strings.Contains(lines, effPrefix+"g0:2|g") {
 			r.Fail("gauge-not-forwarded", which, "gauge g0 was polled but %q is not on the wire:\n%s", effPrefix+"g0:2|g", truncate(lines, 600))
